@@ -298,45 +298,53 @@ def check_arity_selection(rep, simmod, init, rows, luts, weights):
     ins, outs = simops.operand_defs(init)
     name_to_k = {nm: r['K'] for nm, r in ins.items()}
 
-    def ev_test(t, pat):
-        if isinstance(t, ast.BoolOp):
-            vals = [ev_test(v, pat) for v in t.values]
-            return all(vals) if isinstance(t.op, ast.And) else any(vals)
-        if isinstance(t, ast.UnaryOp) and isinstance(t.op, ast.Not):
-            return not ev_test(t.operand, pat)
-        if isinstance(t, ast.Compare) and len(t.ops) == 1 and isinstance(t.ops[0], (ast.Eq, ast.NotEq)):
-            a, b = t.left, t.comparators[0]
-            if attr_chain(b) != 'self.zero_idx':
-                a, b = b, a
-            if attr_chain(b) == 'self.zero_idx' and isinstance(a, ast.Name) and a.id in name_to_k:
-                r = pat[name_to_k[a.id]]
-                return r if isinstance(t.ops[0], ast.Eq) else not r
-        raise ModelError(f'arity selection: unrecognised test {norm(t)}')
+    # The selection is *evaluated*, not pattern-matched: for every connectivity pattern of the four input pins the names
+    # the constructor uses are bound to values realising the pattern (an unconnected pin reads self.zero_idx, n.ins holds
+    # None there) and the statements between the operand definitions and the end of the loop body run in Engine M.
+    from kvstatic import minieval
+    blk = getattr(loop, '_parent', None)
+    sibs = getattr(blk, 'body', []) if blk is not None and loop in getattr(blk, 'body', []) else (getattr(blk, 'orelse', []) if blk is not None else [])
+    pre = []
+    if loop in sibs:
+        defs_at = max((sibs.index(r['node']) for r in ins.values() if r['node'] in sibs), default=-1)
+        pre = [st for st in sibs[defs_at + 1:sibs.index(loop)] if isinstance(st, ast.Assign)]
+    nodevar = next((norm(st.value)[:-len('.kind.lower()')] for st in kdefs if norm(st.value).endswith('.kind.lower()')), 'n')
 
-    def run_block(stmts, pat, cur):
-        for st in stmts:
-            if isinstance(st, ast.Assign) and len(st.targets) == 1 and isinstance(st.targets[0], ast.Name):
-                v = st.value
-                if isinstance(v, ast.Subscript) and is_name(v.value, primsvar) and isinstance(v.slice, ast.Constant):
-                    cur = (st.targets[0].id, v.slice.value)
-                    continue
-                raise ModelError(f'arity selection: unrecognised assignment {norm(st)}')
-            if isinstance(st, ast.If):
-                cur = run_block(st.body if ev_test(st.test, pat) else st.orelse, pat, cur)
-                continue
-            if isinstance(st, ast.Break):
-                break
-            raise ModelError(f'arity selection: unrecognised statement {norm(st)[:80]}')
-        return cur
+    def select(conn):
+        """slot chosen for pins connected as conn[0..3]; the circuit node lists pins up to the highest connected one"""
+        ZERO = 7
+        hi = max([k for k in range(4) if conn[k]], default=-1)
+        lines = [minieval.NS(index=100 + k) if conn[k] else None for k in range(hi + 1)]
+        env = {'self': minieval.NS(zero_idx=ZERO), nodevar: minieval.NS(ins=lines, outs=[minieval.NS(index=200)], kind='x'),
+               primsvar: ('slot0', 'slot1', 'slot2'), pvar: 'x', kindvar: 'x'}
+        for nm, k in name_to_k.items():
+            env[nm] = 100 + k if conn[k] else ZERO
+        for st in pre:
+            try:
+                minieval.run([st], env)
+            except (ModelError, IndexError, KeyError, TypeError):
+                pass    # an unrelated statement; if the selection needs its value the evaluation below fails
+        before = dict(env)
+        try:
+            minieval.run(body, env)
+        except (IndexError, KeyError, TypeError) as e:
+            return None, f'{type(e).__name__}: {e}'
+        changed = [k for k, v in env.items() if isinstance(v, str) and v.startswith('slot') and before.get(k) != v]
+        if len(changed) != 1:
+            raise ModelError(f'arity selection: no single selected variable (changed: {changed})')
+        return changed[0], int(env[changed[0]][4:])
 
     w = {k - 2: v for k, v in weights.items()}
     n_ob = 0
+    cur = None
     for z2 in (False, True):
         for z3 in (False, True):
             pat = {0: False, 1: False, 2: z2, 3: z3}   # True = operand reads the zero line
-            cur = run_block(body, pat, None)
-            if cur is None:
-                raise ModelError('arity selection assigns nothing')
+            cur = select([True, True, not z2, not z3])
+            if cur[0] is None:
+                rep.violate('C01.arity', simmod, init, f'selection with i2 {"un" if z2 else ""}connected, i3 {"un" if z3 else ""}connected',
+                            f'the primitive selection raises {cur[1]} for this connectivity', node=iff)
+                continue
             slot = cur[1]
             n = 4 if not z3 else (3 if not z2 else 2)
             rowmask = 0
@@ -358,6 +366,20 @@ def check_arity_selection(rep, simmod, init, rows, luts, weights):
                                 f"kind prefix {p!r} with highest connected pin {n-1}: selected {names[slot]} but the netlist function is {expname} "
                                 f"(unconnected pins read 0)", node=iff,
                                 witness={'pattern': {'i2_unconnected': z2, 'i3_unconnected': z3}, 'slot': slot})
+    for c0 in (False, True):
+        for c1 in (False, True):
+            for c2 in (False, True):
+                for c3 in (False, True):
+                    if c0 and c1:
+                        continue
+                    got = select([c0, c1, c2, c3])
+                    want = 0 if c3 else (1 if c2 else 2)
+                    ok = got[0] is not None and got[1] == want
+                    rep.ob('C01.arity', f'pins connected {[int(c0), int(c1), int(c2), int(c3)]} -> slot {want}', ok)
+                    if not ok:
+                        rep.violate('C01.arity', simmod, init, f'pins connected {[int(c0), int(c1), int(c2), int(c3)]}',
+                                    f'with input pins connected as {[int(c0), int(c1), int(c2), int(c3)]} the selection takes slot {got[1]} but the highest connected pin '
+                                    f'needs slot {want} ({4 - want}-input variant): a connected pin would be dropped or a spare 0 input added to an AND-type gate', node=iff)
     rep.floor('arity-selection obligations', n_ob, 100)
     # the selected variable must be what the regular-node tuple stores in column 0
     selvar = cur[0]
@@ -391,8 +413,8 @@ def check_wiring(rep, simmod, init, sites):
     for s in sites:
         lut = s.lut.id if isinstance(s.lut, ast.Name) else norm(s.lut)
         star = s.rest[0] if len(s.rest) == 1 and isinstance(s.rest[0], ast.Starred) else None
-        if star is None:
-            raise ModelError(f'ops.append tuple tail is not `*a_ctrl[...]`: {norm(s.tup)[:100]}')
+        if star is None and len(s.rest) != 3:   # columns 6..8 (accumulation control) are C13's subject; here only their presence
+            raise ModelError(f'ops.append tuple does not have the 9 columns (lut, out, 4 inputs, 3 accumulation columns): {norm(s.tup)[:100]}')
         in_names = [norm(e) for e in s.ins]
         conds = [norm(p.test) for p in parents(s.call) if isinstance(p, ast.If)]
         in_else_of = [p for p in parents(s.call) if isinstance(p, ast.If)]
@@ -450,7 +472,6 @@ def check_wiring(rep, simmod, init, sites):
                 rep.violate('C01.wiring', simmod, init, s.tup, f'interface output pin {pin} ({"flip-flop" if dff_true else "non flip-flop"}) must be {exp} '
                             f'(second flip-flop output is inverted, all others copy), found {lut}', node=s.call)
             # a_ctrl row of the same line
-            ok = norm(star.value).replace(' ', '') in (f'a_ctrl[{line}]', f'a_ctrl[{line}.index]', f'a_ctrl[{norm(o)}]')
             roles.append(('interface', pin, dff_true, dff_false))
             # None guard
             if not any(f'{line} is not None' in c for c in conds):
